@@ -70,6 +70,7 @@ def fresh_of_dom(it, dom, name):
     if 'pyobj' in dom.kinds:
         cls = world.function_or_class(dom.cls)
         o = Obj(cls, {})
+        o.from_domain = True
         for a, d in (dom.attrs or {}).items():
             o.attrs[a] = fresh_of_dom(it, d, '%s.%s' % (name, a))
         return o
@@ -331,6 +332,8 @@ def heap_copy(v, memo=None):
         return memo[id(v)]
     if isinstance(v, Obj):
         o = Obj(v.cls, {})
+        if getattr(v, 'from_domain', False):
+            o.from_domain = True
         memo[id(v)] = o
         for k, x in v.attrs.items():
             o.attrs[k] = heap_copy(x, memo)
@@ -522,6 +525,21 @@ class Result(object):
                 'source_sha': self.source_sha}
 
 
+TRANSPARENT_DECORATORS = ('register_for', 'staticmethod', 'classmethod')
+
+
+def opaque_decorators(node):
+    """ decorators of a function definition other than the ones known to hand the function back unchanged (the registration
+        decorator of hotxlfp.formulas - checked by the C09 table obligations - and static/class method markers) """
+    out = []
+    for d in getattr(node, 'decorator_list', ()):
+        f = d.func if isinstance(d, ast.Call) else d
+        name = f.attr if isinstance(f, ast.Attribute) else (f.id if isinstance(f, ast.Name) else '?')
+        if name not in TRANSPARENT_DECORATORS:
+            out.append(ast.unparse(d))
+    return out
+
+
 def verify_contract(world, c, timeout_ms=10000, only_case=None, budget_s=None):
     """ generate and discharge all obligations of one contract; returns Result """
     res = Result(c)
@@ -534,6 +552,11 @@ def verify_contract(world, c, timeout_ms=10000, only_case=None, budget_s=None):
         else:
             fn = c.funcref()
             res.source_sha = fn.module.sha_of(fn.node)
+            odd = opaque_decorators(fn.node)
+            if odd and not c.decl.get('bounded_only'):
+                # what runs under this name is whatever the decorator returned, not the body the obligations would be generated from
+                # (functools.lru_cache, for one, answers from a table keyed by == and hash: 1, 1.0 and True share an entry)
+                raise OutOfReach('decorated with %s: the callable that runs is not the function body' % ', '.join(odd))
         seen = set()
         counter = {'post': 0}
         for ci, case in enumerate(c.cases):
